@@ -189,7 +189,7 @@ Definition astep (s : ast) (o : op) : ast * out :=
             (mkA arr1 (aoutside s ++ [x]) (aclock s) (arefer s) (anext s) (apadd s) q, OFlag true)
           else (mkA (aarr s) (aoutside s) (aclock s) (arefer s) (anext s) (apadd s) q, OFlag true)
       end
-  | Pass n => (mkA (aarr s) (aoutside s) (aclock s + Z.max n 0) (arefer s) (anext s) (apadd s) (apdel s), ONone)
+  | Pass n => (mkA (aarr s) (aoutside s) (aclock s + n) (arefer s) (anext s) (apadd s) (apdel s), ONone)
   | Tick =>
       let '(arr, outside, r, o) :=
         atrigger (S (length (aarr s))) (aclock s) (aarr s) (aoutside s) (arefer s) [] in
